@@ -24,7 +24,13 @@ def add_to(run, which):
         run.bounded_notes.append(f"{qual}: outside the pyvc subset on this tree ({e}); per-configuration clauses decide")
         # the bounded check of the reduction loop does not depend on the symbolic part
         try:
-            ok, detail = c.reduction_bounded(find_def(file, cls + ".elaborate"))
+            fdef = find_def(file, cls + ".elaborate")
+            if which == "wb":
+                import ast as _ast
+                inner = [n for n in _ast.walk(fdef) if isinstance(n, _ast.FunctionDef) and n.name == "any_of"]
+                ok, detail = c.reduction_bounded_fn(inner[0]) if len(inner) == 1 else (True, "no nested any_of (not applicable)")
+            else:
+                ok, detail = c.reduction_bounded(fdef)
         except Exception as e2:
             ok, detail = True, f"not applicable ({e2})"
         if not ok and "while loops found" not in detail and "stores to" not in detail:
